@@ -650,6 +650,7 @@ def walkPath (cx : Ctx) (useIR : Bool) : List String → View.Win → Bool → P
     | "range" => cont (viaIdx { form := .range, start := a, end_ := b } false) m
     | "rangeto" => cont (viaIdx { form := .rangeTo, end_ := a } false) m
     | "rangefrom" => cont (viaIdx { form := .rangeFrom, start := a } false) m
+    | "getr" => cont (viaIdx { form := .range, start := a, end_ := b } true) m
     | "incl" => cont (viaIdx { form := .rangeIncl, start := a, end_ := b } false) m
     | "first" => (match (if useIR then Gen.first cx.shape m w else View.first w) with
         | .ok e => (.elem e true, m, rest) | .panic => (.panic, m, rest) | .stuck => (.stuck, m, rest) | .none => (.none, m, rest))
